@@ -380,6 +380,11 @@ static std::vector<double> times(GenCtx & g, int K, long N, double t0, double dt
   ts.push_back(tmax + dt / 2);
   ts.push_back(t0 - 1e3 * dt);
   ts.push_back(tmax + 1e3 * dt);
+  // far outside: the floating-point interval index (t - t0)/dt exceeds 2^31 and 2^40 (a narrow index type wraps here)
+  ts.push_back(tmax + 3e9 * dt);
+  ts.push_back(t0 - 3e9 * dt);
+  ts.push_back(tmax + 1e13 * dt);
+  ts.push_back(t0 - 1e13 * dt);
   for (int i = 0; i < nrand; ++i) ts.push_back(g.rng.uni(t0, tmax));
   // the middle of the first and of the last interval
   ts.push_back(t0 + 0.5 * dt);
